@@ -108,4 +108,18 @@ CLAIMS['C06'] = {
   'text': 'Decides which phases run for each Fact value (all valuations, four types), that reuse modes leave perm_c/etree alone, that the reuse tail of the factor routine refreshes every rebindable field of L and U, that the solve-side routines cannot write any path under L or U (sound may-write over-approximation under the no-alias contract), and the pivot fallback. Accuracy of each call in a history is not decided.',
   'note': 'No-alias contract between distinct pointer arguments; external BLAS effects from a reviewed table.',
 }
+CLAIMS['C12'] = {
+  'level': 'other',
+  'technique': 'static analysis: flag-partitioned event oracles on the driver and on the estimator routine (R3), structural loop-bound / inverse-permutation rules on the growth routine, sibling agreement (R9)',
+  'design_ref': 'DESIGN.md 5 C12',
+  'text': 'Decides the glue on which the estimate and the growth factor depend, for every flag valuation and all four types: norm letter tied to the effective transpose and shared by ?langs and ?gscon, the kase -> solve-sequence table of ?gscon and the rcond formula, no warning without an estimate, growth computed over the leading *info columns on a singular return, A read through the inverse of perm_c and every update of the growth factor bounded by ncols inside a supernode. That the estimate is a one-sided bound and that the growth equals its definition are statements about values and are not decided.',
+  'note': 'Plain transposed solves are accepted for the complex estimator (they cannot break the one-sided bound).',
+}
+CLAIMS['C13'] = {
+  'level': 'other',
+  'technique': 'static analysis: flag-partitioned event oracles on the driver and on the refinement routine (R3), must-pass-through and guard rules on the CFG of the stopping loop, sibling agreement (R9)',
+  'design_ref': 'DESIGN.md 5 C13',
+  'text': "Decides: refinement off -> no ?gsrfs and ferr = berr = 1.0 exactly; refinement on -> ?gsrfs on the equilibrated system with the solve's transpose sense, between solve and unscaling; inside ?gsrfs the residual, correction and estimator solves use the transpose letters the system requires (incl. C for CONJ in complex units) with the right scaling side; at most 5 updates; BERR is recomputed after every update on every path to the exit. Equality of BERR with the true backward error and finiteness of FERR are not decided.",
+  'note': 'Representative kase values {0,1,2}; data-dependent loop tests are explored both ways.',
+}
 NOT_APPLICABLE = {}
